@@ -166,10 +166,128 @@ DeepCases == [n \in 1..(Len(DeepShapes) * Len(DeepLeaves) * Len(DeepOps)) |->
                                [] sh = "a0b" -> ArrV(<<Wrap1(Kb, v), IntV(7)>>) [] OTHER -> ArrV(<<IntV(7), Wrap1(Kb, v)>>)
                     c == IF o \in {"has", "exists"} THEN Const(BoolV(TRUE)) ELSE Const(IntV(1)) IN
                 [ast |-> Bin(o, Path("@", fr), c), root |-> Members(None, None), elem |-> ObjV(<<Ka>>, <<inner>>)]]
-Cases == BinCases \o UnCases \o BareCases \o BigOne \o BigTwo \o RxCases \o BigIntCases \o DeepCases
+(* ------------------------------------------------------------------ multi-valued operands over look-alike values          *)
+(* "A multi-valued script is true if ANY combination is true": every value an operand path selects has to be tried, and values   *)
+(* of different kinds are different values even when they PRINT alike (1 / "1" / 1.0, true / "true", null / "<nil>" / "null",     *)
+(* [] / "[]" / "", {} / "{}" / "map[]" / "", [1,"2"] / [1,2] / "[1 2]", {a:1} / {a:"1"} / "map[a:1]").                            *)
+(* Cell table, enumerated and FILTERED by TLC from Script!Expect:                                                                *)
+(*   operator shape x ordered pair (x decoy, y target) of one look-alike group x arrangement of the operand's value list         *)
+(*   (target last / first / behind a filler / decoy twice) x the fragment that makes the operand multi-valued (wildcard over an   *)
+(*   array / object, index union in both listings, key union, slice with and without step, descent, child behind a wildcard with  *)
+(*   a member missing in between, nested filter, wildcard behind an index, `$`-rooted wildcard).                                  *)
+(* A cell is kept iff the script is TRUE (Expect = "T") and is no longer demanded true once the target y is taken out of the     *)
+(* list (Expect # "T"): the verdict then hangs on exactly that one value being tried whatever stands before or behind it.        *)
+S1 == StrV(<<49>>)
+S2 == StrV(<<50>>)
+STrue == StrV(<<116, 114, 117, 101>>)
+SFalse == StrV(<<102, 97, 108, 115, 101>>)
+SNil == StrV(<<60, 110, 105, 108, 62>>)                   \* "<nil>"
+SNull == StrV(<<110, 117, 108, 108>>)
+S1p5 == StrV(<<49, 46, 53>>)
+SBrk == StrV(<<91, 93>>)                                  \* "[]"
+SBrc == StrV(<<123, 125>>)                                \* "{}"
+SMap == StrV(<<109, 97, 112, 91, 93>>)                    \* "map[]"
+SL12 == StrV(<<91, 49, 32, 50, 93>>)                      \* "[1 2]"
+SMa1 == StrV(<<109, 97, 112, 91, 97, 58, 49, 93>>)        \* "map[a:1]"
+AlikeGroups == << <<IntV(1), S1, FltV(1, 0)>>, <<BoolV(TRUE), STrue>>, <<BoolV(FALSE), SFalse>>, <<NullV, SNil, SNull>>, <<FltV(3, 1), S1p5>>,
+                  <<ArrV(<<>>), SBrk, StrV(<<>>)>>, <<ObjV(<<>>, <<>>), SBrc, SMap, StrV(<<>>)>>,
+                  <<ArrV(<<IntV(1), S2>>), ArrV(<<IntV(1), IntV(2)>>), SL12>>, <<ObjV(<<A>>, <<IntV(1)>>), ObjV(<<A>>, <<S1>>), SMa1>> >>
+\* ordered pairs <<decoy, target>> of distinct members of one group (by position: values of different kinds are never compared here)
+PairsOf(g) == LET n == Len(g) ix == SelectSeq([q \in 1..(n * n) |-> q], LAMBDA q : ((q - 1) \div n) # ((q - 1) % n)) IN
+              [q \in 1..Len(ix) |-> <<g[((ix[q] - 1) \div n) + 1], g[((ix[q] - 1) % n) + 1]>>]
+AlikePairs == Flat([g \in 1..Len(AlikeGroups) |-> PairsOf(AlikeGroups[g])])
+Zf == IntV(7)                                              \* a filler that looks like nothing else
+Arrangements == IF Tier = "quick" THEN << <<"x", "y">>, <<"y", "x">>, <<"x", "z", "y">> >>
+                ELSE << <<"x", "y">>, <<"y", "x">>, <<"x", "z", "y">>, <<"x", "x", "y">>, <<"z", "x", "y">>, <<"y", "z", "x">> >>
+RoleVal(r, x, y) == CASE r = "x" -> x [] r = "y" -> y [] OTHER -> Zf
+UIdx(i) == [is |-> FALSE, i |-> i]
+UKey(k) == [is |-> TRUE, k |-> k]
+Union(us) == [f |-> "union", u |-> us]
+Slice(a) == [f |-> "slice", s |-> a]
+Desc == [f |-> "desc"]
+Filt(e) == [f |-> "filter", e |-> e]
+ObjKeys(n) == [i \in 1..n |-> <<96 + i>>]
+MultiForms == <<"wild", "owild", "uidx", "uidxr", "ukey", "slice", "slice2", "desc", "wchild", "filt", "nwild", "rwild">>
+\* the operand path and the member k (of the element, or of the root for a `$` path) that make it select exactly the values vs
+MkForm(fm, vs) ==
+    LET n == Len(vs) wrapA == [i \in 1..n |-> ObjV(<<A>>, <<vs[i]>>)] IN
+    CASE fm = "wild"   -> [rt |-> "@", fr |-> <<Child(Kk), Wild>>, kv |-> ArrV(vs)]
+      [] fm = "owild"  -> [rt |-> "@", fr |-> <<Child(Kk), Wild>>, kv |-> ObjV(ObjKeys(n), vs)]
+      [] fm = "uidx"   -> [rt |-> "@", fr |-> <<Child(Kk), Union([i \in 1..n |-> UIdx(i - 1)])>>, kv |-> ArrV(vs)]
+      [] fm = "uidxr"  -> [rt |-> "@", fr |-> <<Child(Kk), Union([i \in 1..n |-> UIdx(n - i)])>>, kv |-> ArrV(vs)]
+      [] fm = "ukey"   -> [rt |-> "@", fr |-> <<Child(Kk), Union([i \in 1..n |-> UKey(<<96 + i>>)])>>, kv |-> ObjV(ObjKeys(n), vs)]
+      [] fm = "slice"  -> [rt |-> "@", fr |-> <<Child(Kk), Slice(<<0, n>>)>>, kv |-> ArrV(vs \o <<Zf>>)]
+      [] fm = "slice2" -> [rt |-> "@", fr |-> <<Child(Kk), Slice(<<0, 2 * n, 2>>)>>,
+                           kv |-> ArrV([i \in 1..(2 * n) |-> IF (i % 2) = 1 THEN vs[(i + 1) \div 2] ELSE Zf])]
+      [] fm = "desc"   -> [rt |-> "@", fr |-> <<Child(Kk), Desc, Child(A)>>, kv |-> ArrV(wrapA)]
+      \* (a member without the key in between: a missing value is no value)
+      [] fm = "wchild" -> [rt |-> "@", fr |-> <<Child(Kk), Wild, Child(A)>>, kv |-> ArrV(<<wrapA[1], ObjV(<<>>, <<>>)>> \o Tail(wrapA))]
+      [] fm = "filt"   -> [rt |-> "@", fr |-> <<Child(Kk), Filt(Bin("!=", Path("@", <<>>), Const(Zf)))>>, kv |-> ArrV(vs \o <<Zf>>)]
+      [] fm = "nwild"  -> [rt |-> "@", fr |-> <<Child(Kk), Nth(0), Wild>>, kv |-> ArrV(<<ArrV(vs)>>)]
+      [] OTHER         -> [rt |-> "$", fr |-> <<Child(Kk), Wild>>, kv |-> ArrV(vs)]
+ScalarV(v) == v.t \in {"null", "bool", "int", "flt", "str"}
+NoAst == [op |-> "none"]
+\* a constant that orders against y as the operator says (numbers here are 1, 1.0, 1.5; strings: y itself, y + "z", y less its last byte)
+OrdConst(o, y) == IF IsNum(y) THEN (CASE o = "<" -> IntV(2) [] o = ">" -> IntV(0) [] OTHER -> y)
+                  ELSE IF y.t = "str" THEN (CASE o = "<" -> StrV(y.v \o <<122>>)
+                                              [] o = ">" -> IF Len(y.v) > 0 THEN StrV(SubSeq(y.v, 1, Len(y.v) - 1)) ELSE None
+                                              [] OTHER -> y)
+                  ELSE None
+FlipOp(o) == CASE o = "<" -> ">" [] o = ">" -> "<" [] o = "<=" -> ">=" [] OTHER -> "<="
+DotStar == <<46, 42>>
+ShapeNames == <<"==", "==r", "!=", "!=r", "<", "<=", ">", ">=", "<r", "<=r", ">r", ">=r", "in", "inr", "=~", "=~s", "search", "match",
+                "has", "exists", "emptyT", "emptyF", "arith", "length", "not", "&&", "||", "mm", "mmr">>
+MJ == Path("@", <<Child(Kj), Wild>>)
+ShapeAst(sh, m, x, y) ==
+    LET ord(o, rev) == LET c == OrdConst(o, y) IN IF c.t = "none" THEN NoAst ELSE IF rev THEN Bin(FlipOp(o), Const(c), m) ELSE Bin(o, m, Const(c))
+        tt == Const(BoolV(TRUE)) IN
+    CASE sh = "==" -> IF ScalarV(y) THEN Bin("==", m, Const(y)) ELSE NoAst
+      [] sh = "==r" -> IF ScalarV(y) THEN Bin("==", Const(y), m) ELSE NoAst
+      [] sh = "!=" -> IF ScalarV(x) THEN Bin("!=", m, Const(x)) ELSE NoAst
+      [] sh = "!=r" -> IF ScalarV(x) THEN Bin("!=", Const(x), m) ELSE NoAst
+      [] sh \in {"<", "<=", ">", ">="} -> ord(sh, FALSE)
+      [] sh = "<r" -> ord("<", TRUE) [] sh = "<=r" -> ord("<=", TRUE) [] sh = ">r" -> ord(">", TRUE) [] sh = ">=r" -> ord(">=", TRUE)
+      [] sh = "in" -> IF ScalarV(y) THEN Bin("in", m, Const(ArrV(<<StrV(B), y>>))) ELSE NoAst
+      \* the operand's values are the one-member lists [x], [y]: `y in @.k[*]`
+      [] sh = "inr" -> IF ScalarV(y) THEN Bin("in", Const(y), m) ELSE NoAst
+      [] sh = "=~" -> Bin("=~", m, Const([t |-> "rx", p |-> DotStar]))
+      [] sh = "=~s" -> Bin("=~", m, Const(StrV(DotStar)))
+      [] sh \in {"search", "match"} -> Bin(sh, m, Const(StrV(DotStar)))
+      [] sh \in {"has", "exists"} -> Bin(sh, m, tt)
+      [] sh = "emptyT" -> Bin("empty", m, tt)
+      [] sh = "emptyF" -> Bin("empty", m, Const(BoolV(FALSE)))
+      [] sh = "arith" -> Bin(">", Bin("+", m, Const(IntV(1))), Const(IntV(1)))
+      [] sh = "length" -> IF y.t = "str" THEN Bin("==", Un("length", m), Const(IntV(Len(y.v))))
+                          ELSE IF y.t = "arr" THEN Bin("==", Un("length", m), Const(IntV(Len(y.v))))
+                          ELSE IF y.t = "obj" THEN Bin("==", Un("length", m), Const(IntV(Len(y.k)))) ELSE NoAst
+      [] sh = "not" -> Un("!", m)
+      [] sh = "&&" -> Bin("&&", m, tt)
+      [] sh = "||" -> Bin("||", Const(BoolV(FALSE)), m)
+      [] sh = "mm" -> Bin("==", m, MJ)
+      [] OTHER -> Bin("==", MJ, m)
+ColCase(sh, fm, vs, x, y) ==
+    LET vv == IF sh = "inr" THEN [i \in 1..Len(vs) |-> ArrV(<<vs[i]>>)] ELSE vs
+        F == MkForm(fm, vv)
+        jv == IF sh \in {"mm", "mmr"} THEN ArrV(<<Zf, y>>) ELSE None IN
+    [ast |-> ShapeAst(sh, Path(F.rt, F.fr), x, y),
+     elem |-> IF F.rt = "@" THEN Members(jv, F.kv) ELSE Members(jv, None),
+     root |-> IF F.rt = "$" THEN Members(None, F.kv) ELSE Members(None, None)]
+ColOf(sh, fm, arr, x, y) == ColCase(sh, fm, [i \in 1..Len(arr) |-> RoleVal(arr[i], x, y)], x, y)
+Sensitive(sh, fm, arr, x, y) ==
+    LET full == ColOf(sh, fm, arr, x, y)
+        cut == ColOf(sh, fm, SelectSeq(arr, LAMBDA r : r # "y"), x, y) IN
+    /\ full.ast.op # "none"
+    /\ Expect(full.ast, full.elem, full.root) = "T"
+    /\ Expect(cut.ast, cut.elem, cut.root) # "T"
+ColCell(p, a, f) == LET x == AlikePairs[p][1] y == AlikePairs[p][2]
+                        ss == SelectSeq(ShapeNames, LAMBDA sh : Sensitive(sh, MultiForms[f], Arrangements[a], x, y)) IN
+                    [i \in 1..Len(ss) |-> ColOf(ss[i], MultiForms[f], Arrangements[a], x, y) @@ [src |-> "alike"]]
+ColCases == Flat([p \in 1..Len(AlikePairs) |-> Flat([a \in 1..Len(Arrangements) |-> Flat([f \in 1..Len(MultiForms) |-> ColCell(p, a, f)])])])
+
+Cases == BinCases \o UnCases \o BareCases \o BigOne \o BigTwo \o RxCases \o BigIntCases \o DeepCases \o ColCases
 
 VARIABLE done
 Init == done = FALSE
-Next == ~done /\ done' = TRUE /\ ndJsonSerialize("cases.ndjson", Cases) /\ PrintT(<<"NCASES", Len(Cases), NL, NR, NP>>)
+Next == ~done /\ done' = TRUE /\ ndJsonSerialize("cases.ndjson", Cases) /\ PrintT(<<"NCASES", Len(Cases), NL, NR, NP, Len(ColCases)>>)
 Spec == Init /\ [][Next]_done
 =============================================================================
